@@ -17,7 +17,8 @@
 (***************************************************************************)
 EXTENDS LiquidSem, LiquidSrc, LiquidAst, IOUtils
 
-CONSTANTS MaxDepth, Focus
+CONSTANTS MaxDepth, Focus,
+          AutoEsc     \* auto escape on: the data holds markup, block.super is rendered output (never escaped again)
 
 VARIABLES chain,    \* sequence of template descriptions, leaf first
           done
@@ -118,7 +119,9 @@ Page(v) ==
 
 -----------------------------------------------------------------------------
 Data(v) == << <<<<"v", Str(v)>>>>, <<>>, <<>>, <<>> >>
-Config == Cfg("+", TRUE, FALSE, "default")
+Config == Cfg("+", TRUE, AutoEsc, "default")
+V0 == IF AutoEsc THEN "<V&'>" ELSE "V"
+Shown == IF AutoEsc THEN Escape(V0) ELSE V0     \* what an output statement writes for v
 
 Init == chain = <<>> /\ done = FALSE
 AddTemplate(d) == /\ ~done /\ Len(chain) < MaxDepth
@@ -126,7 +129,7 @@ AddTemplate(d) == /\ ~done /\ Len(chain) < MaxDepth
 Finish == /\ ~done /\ chain # <<>> /\ done' = TRUE /\ UNCHANGED chain
 Next == (\E d \in Descs : AddTemplate(d)) \/ Finish
 
-Result(main, last) == Render(Ann(AllTemplates(last)), main, Data("V"), Config)
+Result(main, last) == Render(Ann(AllTemplates(last)), main, Data(V0), Config)
 
 \* machine (stacks) = reference (fold) on every well-formed chain whose required
 \* blocks are all overridden; required-but-unmet chains fail with RequiredBlockError
@@ -134,8 +137,8 @@ RefinesReference ==
   (done /\ WellFormed) =>
      LET r == Result("t1", "") IN
      IF r.err = "UNSPEC" THEN TRUE
-     ELSE IF HasSub(Page("V"), "!REQ!") THEN ~r.ok /\ r.err = "RequiredBlockError"
-     ELSE r.ok /\ r.out = Page("V")
+     ELSE IF HasSub(Page(Shown), "!REQ!") THEN ~r.ok /\ r.err = "RequiredBlockError"
+     ELSE r.ok /\ r.out = Page(Shown)
 
 \* malformed chains are rejected with a template-inheritance error, never rendered
 Rejected ==
@@ -148,7 +151,7 @@ Emit(main, last) ==
   IF r.err = "UNSPEC" THEN TRUE
   ELSE Serialize(ToJson([focus |-> Focus, main |-> main,
                          templates |-> [i \in DOMAIN AllTemplates(last) |-> <<AllTemplates(last)[i][1], Src(AllTemplates(last)[i][2])>>],
-                         data |-> Data("V"), cfg |-> Config, expect |-> r]) \o "\n", IOEnv.OUT_FILE,
+                         data |-> Data(V0), cfg |-> Config, expect |-> r]) \o "\n", IOEnv.OUT_FILE,
             [format |-> "TXT", charset |-> "UTF-8", openOptions |-> <<"WRITE", "CREATE", "APPEND">>]).exitValue = 0
 
 Export ==
